@@ -113,7 +113,13 @@ static size_t emit_layout(const uint32_t* v, uint8_t* out) {
 
 void harness(void) {
     struct in IN = nondet_in();
+#if (VT == 1 || VT == 2) && VBW >= 16
+    /* the level decoders deliver int16_t: a level above INT16_MAX is not a level (no schema nests that deep) and cannot be returned
+       as "the original value" through this API - the stream carries 16-bit slots, the values are levels */
+    const uint32_t mask = 0x7fffu;
+#else
     const uint32_t mask = VBW >= 32 ? 0xffffffffu : ((1u << VBW) - 1u);
+#endif
     uint32_t v[VNN];
     { int cur = 0;
       for (int d = 0; d < VLN; d++) {
